@@ -25,9 +25,13 @@ CHECKS = {
                   'nodes_indices yields exactly the matching indices in increasing / decreasing order. All inputs are concrete per query (exhaustive enumeration of a finite space through the encoder). '
                   'Raster corner precedence, override maps, the mesh and the default base levels are NOT covered (symbolic-status raster construction: no verdict in 5 min).',
              note=NOTE, technique=TECH + ' (inputs enumerated concretely per query)'),
- 'C13': dict(text='Part (i) only: for EVERY binary64 slope exponent n, set_slope_exp takes the linear (direct solve) path exactly when |n-1| <= DBL_EPSILON and rejects every other exponent on multiple-direction graphs (this is also the rejection clause of C12). '
-                  'Parts (ii)/(iii) (residual of the discrete equation) are not decided: the binary64 equivalence queries gave no verdict (cvc5/SAT, 200-500 s, 3-node chain).',
-             note=NOTE, technique=TECH),
+ 'C12': dict(text='On 4 concrete graph structures with symbolic finite values of bounded magnitude, per node: erosion is exactly zero at self receivers (outlets, pits; base-level and masked nodes are self receivers after routing) and at nodes not above the post-erosion level of their lowest receiver (lakes); a slope exponent with |n-1| > epsilon is rejected on multiple-direction graphs for every binary64 n. '
+                  'The two inequality clauses (not negative beyond rounding; not lowered below the lowest receiver) are NOT decided in binary64 (no verdict in 280 s); in exact arithmetic they follow from C13(ii).',
+             note=NOTE + '; linear path only (Newton loop has no bound with pow as an uninterpreted stub)', technique=TECH),
+ 'C13': dict(text='(i) for EVERY binary64 slope exponent n, set_slope_exp takes the linear (direct solve) path exactly when |n-1| <= DBL_EPSILON and rejects every other exponent on multiple-direction graphs. '
+                  '(ii) linear case: on concrete graph structures (chain, tree, two outlets, multiple-direction DAG) with symbolic elevation, drainage area, erodibility (scalar/array), time step, weights and distances, per node the returned erosion equals bit for bit old - new, where new is the direct solution of the backward-Euler discrete equation (receivers not higher than the node, limited at the lowest new receiver level, zero in lakes), area exponent 1 exact and 0.5 through pow as an uninterpreted function whose arguments are asserted. '
+                  '(iii) Newton iteration for n != 1: not decided.',
+             note=NOTE + '; per-node queries; deepest nodes and nodes with two receivers only in the thorough tier (19 min per query)', technique=TECH),
 }
 NOT_APPLICABLE = {
  'C01': 'sink resolvers (priority-flood with std::priority_queue, MST resolver with basin graph) have heap shape and control flow that depend on the symbolic elevations; the IR->C->cbmc encoding of the STL/xtensor code explodes already for the DFS/BFS sub-steps at N=3 (5M variables, >10 min); no verdict reachable, see DESIGN.md 5',
@@ -36,7 +40,6 @@ NOT_APPLICABLE = {
  'C07': 'not built in this round: the accessors return dynamically sized containers whose size depends on the symbolic node index; only the fixed-size impl layer would be encodable, see DESIGN.md 5',
  'C09': 'needs two complete update_routes histories with sink resolvers on one object; the composed unit is out of reach of the encoder (see C01), see DESIGN.md 5',
  'C10': 'interleavings: cbmc threads over the translated pool/xtensor code are out of reach; only the sequentialised apply_par path is checked (inside C04); not claimed as C10',
- 'C12': 'sign / no-reversal clauses are inequalities over chains of binary64 multiplications and divisions: no verdict (cvc5/SAT 200-500 s on a 3-node chain); the rejection clause is decided inside the C13 check',
  'C14': 'floating-point linear algebra (tridiagonal solves): not encodable within reach, as anticipated in the design; no check',
  'C15': 'basin graph / Kruskal / Boruvka sort and union symbolic weights: data-dependent std::sort and vectors; out of reach of the encoder (see C01)',
  'C18': 'trimesh construction hashes symbolic vertex pairs into std::unordered_map; heap shape depends on symbolic data; out of reach',
